@@ -371,7 +371,13 @@ class Fn:
         o.append('Definition %s_inputs : nat := %d.' % (s.short, len(ins)))
         return '\n'.join(o).replace('(fun', '(fun').replace('=> [', '=> (cons_list [').replace(']).', ']))).') if False else '\n'.join(o), ins, outs
 
+_AST_CACHE = {}
 def ast_of(repo, fn, defines=()):
+    key = (repo, fn, tuple(defines))
+    if key not in _AST_CACHE: _AST_CACHE[key] = _ast_of(repo, fn, defines)
+    return _AST_CACHE[key]
+
+def _ast_of(repo, fn, defines=()):
     tu = tempfile.NamedTemporaryFile('w', suffix='.c', delete=False)
     tu.write('#define ENABLE_MODULE_RECOVERY 1\n#define ENABLE_MODULE_EXTRAKEYS 1\n#define ENABLE_MODULE_SCHNORRSIG 1\n#define ECMULT_WINDOW_SIZE 15\n#define COMB_BLOCKS 43\n#define COMB_TEETH 6\n#include "src/secp256k1.c"\n')
     tu.close()
